@@ -12,7 +12,7 @@ META = {
                  'driving the REAL ComputePatches / RequestCache through gated callbacks and comparing with the Lean models + Go race detector runs',
     'design_ref': 'DESIGN.md §5 C16',
     'text': 'PARTIAL. Proved (all schedules, any number of tasks/callers/keys, kernel-checked): two complete delivery orders of ComputePatches collect the same multiset of '
-            'patches, contain exactly the collected patches in their result whatever the version comparison does, and, when the version comparison is a strict weak order on the target versions present (all parsable under one ecosystem's order — npm, Maven and PyPI tables are exercised — or all unparsable), return the same list, strictly increasing w.r.t. Patch.Compare (sorted, no duplicates); without that hypothesis duplicates can survive (decided witness); Patch.Compare satisfies '
+            'patches, contain exactly the collected patches in their result whatever the version comparison does, and, when the version comparison is a strict weak order on the target versions present (all parsable under the order of one ecosystem — npm, Maven and PyPI tables are exercised — or all unparsable), return the same list, strictly increasing w.r.t. Patch.Compare (sorted, no duplicates); without that hypothesis duplicates can survive (decided witness); Patch.Compare satisfies '
             'SortFunc\'s precondition among patches with >=1 update; the worklist terminates when the introducible vulnerabilities are finite; RequestCache: single flight per key, '
             'no fetch started after a success until the next SetMap, fetch count <= failures + 1; LINEARIZABLE w.r.t. the sequential map-with-fetch-on-miss whenever SetMap does not overlap '
             'a fetch (explicit linearization: legal sequential history ending in the actual cache, every completed Get in it once with its real result at a point inside its interval, order = '
@@ -149,12 +149,20 @@ def history_oracle(case, fi, stats=None):
     def out():
         return (' || '.join(findings) + '; history: ' + h) if findings else None
     # 2. linearizability of the completed calls
+    if stats is not None:
+        stats['histories'] += 1
     if any(k == 'S' and any(fs[t] < i < fe.get(t, 10 ** 9) for t in fs) for i, k, _ in atomic):
+        if stats is not None:
+            stats['skipped_setmap_overlaps_fetch'] += 1        # outside RunOK: provably not linearizable; provenance / single flight / counts still judged
         return out()
     ops = [('get', inv[t], resp[t], keys[t], res[t], t) for t in resp if t in inv] + [(k, i, i, None, m, None) for i, k, m in atomic]
     n = len(ops)
     if n > 9:
+        if stats is not None:
+            stats['skipped_too_long'] += 1
         return out()
+    if stats is not None:
+        stats['linearizability_judged'] += 1
     before = [[ops[a][2] < ops[b][1] for b in range(n)] for a in range(n)]
     def search(done, m):
         if len(done) == n:
@@ -453,7 +461,7 @@ def run(ctx):
     ctx.extra['schedules_per_universe_max'] = max([u['n'] for u in by_universe.values()] or [0])
     ctx.extra['hypothesis_violations'] = viol
     ctx.extra['controller_deviations_dev1'] = deviations[0]
-    ctx.extra['cache_history_oracle'] = lin_stats
+    ctx.extra['cache_history_oracle'] = dict(lin_stats, judged_share='%.0f%%' % (100.0 * lin_stats['linearizability_judged'] / max(1, lin_stats['histories'])))
 
     # 4. runtime part: the race detector
     race_bin = ctx.go_build('c16gen', race=True)
